@@ -408,6 +408,23 @@ func InjectAt(r *rng.R, p *Program, idx int) (Injection, bool) {
 			f.Defs = append(f.Defs, d)
 			return "enum items aliasing values with labels of their own", true
 		}},
+		{"D81-set-constant-with-a-repeated-item", "B", func() (string, bool) {
+			f := p.Files[r.Intn(len(p.Files))]
+			one := func() *Lit { return &Lit{K: LInt, I: 1} }
+			str := func() *Lit { return &Lit{K: LString, S: "x"} }
+			switch r.Intn(4) {
+			case 0:
+				f.Consts = append(f.Consts, &Constant{File: f, Name: "dup_items", Type: &Type{K: Set, Elem: &Type{K: I32}}, Value: &Lit{K: LList, Items: []*Lit{one(), {K: LInt, I: 2}, one()}}})
+			case 1:
+				f.Consts = append(f.Consts, &Constant{File: f, Name: "dup_items", Type: &Type{K: Set, Elem: &Type{K: String}}, Value: &Lit{K: LList, Items: []*Lit{str(), str()}}})
+			case 2:
+				f.Consts = append(f.Consts, &Constant{File: f, Name: "dup_keys", Type: &Type{K: Map, Key: &Type{K: I64}, Elem: &Type{K: String}}, Value: &Lit{K: LMap, Items: []*Lit{one(), str(), one(), {K: LString, S: "y"}}}})
+			default:
+				f.Defs = append(f.Defs, &Def{File: f, Name: "DupDefault", Kind: Struct, Index: 1 << 20, Fields: []*Field{
+					{ID: 1, Name: "s", Req: Optional, Type: &Type{K: Set, Elem: &Type{K: Double}}, Default: &Lit{K: LList, Items: []*Lit{one(), {K: LDouble, D: "1.0"}}}}}})
+			}
+			return "a set / map constant or default that gives a scalar twice", true
+		}},
 		{"args-same-go-name", "B", func() (string, bool) {
 			for _, fn := range in.funcs() {
 				if len(fn.Args) >= 2 {
